@@ -216,6 +216,7 @@ def c05(chk):
     chk.assumptions = ["both handshakes finish (the property's premise): runs where a dial failed are still validated "
                        "by the trace spec but not required to converge on a connection"]
     chk.add_mc(tlc_mc("MC_Conn.tla", "MC_Conn_c05.cfg", workers=4, timeout=300))
+    chk.add_mc(tlc_mc("MC_Conn.tla", "MC_Conn_abandon.cfg", workers=4, timeout=600))   # connect() calls may be dropped mid-dial
     spec_mutant(chk, "tiebreak_inverted", "MC_Conn.tla", "MC_Conn_c05.cfg", [MUT_TIEBREAK], workers=4)
     # liveness under weak fairness of transport / manager / handler steps: after a mutual dial both sides end
     # - for ever - on the connection dialed by the greater identity, and the event streams fall silent
@@ -228,6 +229,9 @@ def c05(chk):
     # in which admissions, the four finished tasks and the handler exits can be taken - replayed on real
     # Networks through schedule gates (exhaustive: 1262 behaviours), every node compared after every step
     conn_replay(chk, "mutual-exhaustive", "SIM_ConnReplay_c05.cfg", exhaustive=True, validate=2 if quick(chk) else None)
+    # ... and with connect() calls abandoned at any point of their dial (41 482 behaviours: random walks)
+    conn_replay(chk, "mutual-abandon", "SIM_ConnReplay_c05ab.cfg", num=150 if quick(chk) else 6000, depth=80,
+                validate=2 if quick(chk) else None)
     runs = 48 if quick(chk) else 48 * 8
     for label, gated, seed in (("gated", 1, chk.seed * 48), ("random", 0, 100_000 + chk.seed)):
         summ = harness("c05", out=os.path.join(vlib.WORK, f"C05_{label}"), seed=seed,
